@@ -424,6 +424,34 @@ class Gen:
             nm = self.pick(TNAMES)
             return [A.Tup(nm, A.Spread(""))], TT(nm, flow[2])
         srcs = list(tupvars) + ([""] if can_flow else [])
+        # an explicit field whose label the spread's source also carries, written BEFORE or after the spread
+        # (seeded change C02-1 / C01-1: the value source of a named field stopped at the explicit field, so a
+        # spread further right no longer overrode it while the type still said it did)
+        labelled = [(x, [l for l, _ in (flow if x == "" else sc.vars[x])[2] if l]) for x in srcs]
+        labelled = [(x, ls) for x, ls in labelled if ls]
+        if labelled and self.chance(0.35):
+            self.tags.add("spread_label_collision")
+            x, ls = self.pick(labelled)
+            l = self.pick(ls)
+            used.add(l)
+            terms, t = self.gen_field(sc, flow, d + 1)
+            extra.append(A.Field(A.Chain(*terms), l))
+            etypes.append((l, t))
+            extras(self.r.randint(0, 1))
+            parts = [("f", i) for i in range(len(extra))] + [("s", x)]
+            if self.chance(0.4):
+                self.r.shuffle(parts)
+            name = self.pick(TNAMES) if self.chance(0.3) else ""
+            fields, acc = [], []
+            for kind, y in parts:
+                if kind == "s":
+                    fields.append(A.Spread(y))
+                    T = flow if y == "" else sc.vars[y]
+                    acc = self.merge_fields(acc, T[2])
+                else:
+                    fields.append(extra[y])
+                    acc = self.merge_fields(acc, [etypes[y]])
+            return [A.Tup(name, *fields)], TT(name, acc)
         if form == "two":
             s1, s2 = self.r.sample(srcs, 2)
             extras(self.r.randint(0, 1))
@@ -1194,6 +1222,16 @@ def _pat_names(p, binders, pins):
             _pat_names(a, binders, pins)
 
 
+# findings repaired in /repo (known_findings.json: status fixed): their triggers no longer excuse anything
+REPAIRED = {"locals-shift-after-failed-branch-that-binds": "f16701c", "narrowing-survives-rebinding": "f24477a",
+            "spread-of-rebound-variable-uses-old-type": "f24477a"}
+
+
+def _add_open(keys, key):
+    if key not in REPAIRED:
+        keys.append(key)
+
+
 def known_pattern(prog):
     """the key of a known finding (see /verif/known_findings.json) whose SYNTACTIC trigger occurs in the
     program, or None.  (Two further known findings depend on the compiler's static types, which the
@@ -1283,7 +1321,7 @@ def known_pattern(prog):
                 b = set()
                 binders_in(br, b)
                 if b and any(has_binding_block([x["cond"], x["cons"]]) for x in d["branches"][i + 1:]):
-                    keys.append("locals-shift-after-failed-branch-that-binds")
+                    _add_open(keys, "locals-shift-after-failed-branch-that-binds")
                     return
                 # ... or the earlier branch binds through a type-ascribed binder `(T)x` (bound before the
                 # type test fails) and a later branch binds at all
@@ -1304,7 +1342,7 @@ def known_pattern(prog):
                             if mb:
                                 has_as[0] = True
                 if has_as[0] and later:
-                    keys.append("locals-shift-after-failed-branch-that-binds")
+                    _add_open(keys, "locals-shift-after-failed-branch-that-binds")
                     return
     if not keys:
         A.walk(prog, shifted_locals)
@@ -1352,12 +1390,12 @@ def known_pattern(prog):
             if ts and ts[0].get("t") == "access" and ts[0]["src"]["k"] == "id" and not ts[0]["path"] \
                     and counts.get(ts[0]["src"]["name"], 0) >= 2 \
                     and (d["pat"] or (len(ts) > 1 and ts[1].get("t") == "match")):
-                keys.append("narrowing-survives-rebinding")
+                _add_open(keys, "narrowing-survives-rebinding")
         # `[...d]` where d is bound more than once: the spread uses the type of the FIRST binding
         if d.get("t") == "tuple":
             for f in d["fields"]:
                 if f["f"] == "spread" and f["src"] and counts.get(f["src"], 0) >= 2:
-                    keys.append("spread-of-rebound-variable-uses-old-type")
+                    _add_open(keys, "spread-of-rebound-variable-uses-old-type")
     if not keys:
         A.walk(prog, stale)
     if not keys:
